@@ -280,7 +280,18 @@ int main(int argc, char** argv) {
     }
     evEmit(J().str("e", "Stop"));
     svc.reset();
-    evEmit(J().str("e", "SvcGone"));
+    // every inotify instance the service created must be closed by now (a leak per failed registration would
+    // exhaust the per-user limit of 128 and end all watching)
+    int inotifyFds = 0;
+    if (DIR* d = ::opendir("/proc/self/fd")) {
+      while (auto* e = ::readdir(d)) {
+        char buf[256]; std::string lnk = std::string("/proc/self/fd/") + e->d_name;
+        ssize_t k = ::readlink(lnk.c_str(), buf, sizeof buf - 1);
+        if (k > 0) { buf[k] = 0; if (strstr(buf, "inotify")) inotifyFds++; }
+      }
+      ::closedir(d);
+    }
+    evEmit(J().str("e", "SvcGone").num("inotifyFds", inotifyFds));
     engine.reset();
     for (auto& f : kNames) ::unlink(pth(f).c_str());
     ::rmdir(g_dir.c_str()); ::unlink((g_stage + "/f").c_str()); ::rmdir(g_stage.c_str());
